@@ -26,7 +26,8 @@ Escapes == /\ scheme = <<104, 116, 116, 112>> /\ auth \in {<<47, 47, 104, 46, 99
 (* host shapes: empty labels, IPv4, upper case, U-label and A-label, empty port, empty userinfo *)
 Hosts == {<<47, 47, 97, 46, 46, 98>>, <<47, 47, 49, 46, 50, 46, 51, 46, 52>>, <<47, 47, 72, 46, 67>>, <<47, 47, 233, 46, 99>>,
           <<47, 47, 120, 110, 45, 45, 56, 99, 97, 46, 99>>, <<47, 47, 104, 46, 99, 58>>, <<47, 47, 64, 104, 46, 99>>, <<47, 47, 104, 46>>,
-          <<47, 47, 49, 46, 50, 46, 51, 46, 52, 58, 56, 48>>, <<47, 47>>}
+          <<47, 47, 49, 46, 50, 46, 51, 46, 52, 58, 56, 48>>, <<47, 47>>,
+          <<47, 47, 223, 46, 99>>, <<47, 47, 955, 962, 46, 99>>}      \* hosts the IDNA mapping rewrites ("\u00df.c", "\u03bb\u03c2.c")
 HostRows == /\ scheme \in {<<104, 116, 116, 112>>, <<>>} /\ auth \in Hosts
             /\ segs \in {<<>>, << <<97>> >>, << <<>>, <<97>> >>}
             /\ pairs \in {<<>>, << <<<<97>>, <<98>>>> >>}
